@@ -780,6 +780,19 @@ def c12(ctx):
         start_t = cur_t
         cur_state = prev
         seq = [(pre, post) for (_tr, pre, post, _u) in rec.micro]
+        # the first advance of a step may be the forced jump (last offer declined, or a core-API step
+        # with another time machine); every other advance is `jump_to_event`: nothing left to decide
+        forced_first = (rec.kind == "act" and rec.action == 0 and len(rec.offers_before or ()) == 1) or \
+            (rec.kind in ("smstep", "smapply") and getattr(getattr(rec.action, "time_machine", None), "__name__", "jump_to_event") != "jump_to_event") \
+            or rec.kind == "reset"
+        advances = 0
+
+        def undecided(state):
+            try:
+                from jobshoplab.state_machine.core.state_machine.state import get_possible_transitions
+                return tuple(get_possible_transitions(state, ctx.instance, ctx.run.cfg))
+            except Exception:
+                return ()
         for pre, post in seq:
             if tt(pre.time) < cur_t:
                 yield F("time-decreased", f"{cur_t} -> {tt(pre.time)}", si)
@@ -790,6 +803,12 @@ def c12(ctx):
                 if tt(pre.time) != exp:
                     yield F("time-advance-not-to-earliest-pending", f"{cur_t} -> {tt(pre.time)}, earliest pending {p}", si)
                     return
+                advances += 1
+                if not (forced_first and advances == 1):
+                    left = undecided(cur_state)
+                    if left:
+                        yield F("time-advanced-while-decisions-were-open", f"{cur_t} -> {tt(pre.time)} although {left[:3]} could still be decided", si)
+                        return
             if tt(post.time) != tt(pre.time):
                 yield F("handler-changed-time", f"{tt(pre.time)} -> {tt(post.time)}", si)
                 return
@@ -808,6 +827,12 @@ def c12(ctx):
             if tt(fin.time) != exp:
                 yield F("time-advance-not-to-earliest-pending", f"{cur_t} -> {tt(fin.time)} at return, earliest pending {p}", si)
                 return
+            advances += 1
+            if not (forced_first and advances == 1):
+                left = undecided(cur_state)
+                if left:
+                    yield F("time-advanced-while-decisions-were-open", f"{cur_t} -> {tt(fin.time)} at return although {left[:3]} could still be decided", si)
+                    return
         for m in fin.machines:
             if m.state != MS.IDLE and tt(m.occupied_till) is not None and tt(m.occupied_till) <= tt(fin.time):
                 yield F("overdue-at-return", f"{m.id} {m.state.name} until {m.occupied_till} at {fin.time}", si)
